@@ -624,6 +624,10 @@ def run_e2e(args, flavour="rel", timeout=600, env=None, retry_hung=True):
 
 
 def _run_e2e_once(args, flavour, timeout, env):
+    # default: non-blocking final drain.  The documented blocking final svt_av1_enc_get_packet can deadlock against the recon pool
+    # when recon_enabled=1 (genuine library defect, recorded under C27 / C03 F19); only the checks that study it ask for final_nb=0.
+    args = dict(args)
+    args.setdefault("final_nb", 1)
     exe = e2e_exe(flavour)
     argv = [exe] + ["%s=%s" % (k, v) for k, v in args.items()]
     e = dict(os.environ)
